@@ -22,7 +22,8 @@ RULE = ("histories over one CovarianceMatrix object (2-4 WFS on <=3x3 masks, 1-3
         "unchanged. Exhaustive law: every execution x completion order of the 3 tasks of a 2-WFS system and every "
         "execution order of the 6 tasks of a 3-WFS system. Non-trivial history = >=2 builds, a worker-count change and "
         "a non-identity schedule or a delayed real pool. Distinct = canonical JSON of the history."
-        " Also: the returned matrix is edited in place by the caller after every other build; builds under the 'spawn' and 'forkserver' start methods in a fresh interpreter (2-5 workers, rebuild) must be bit-identical too.")
+        " Also: the returned matrix is edited in place by the caller after every other build; builds under the 'spawn' and 'forkserver' start methods in a fresh interpreter (2-5 workers, rebuild) must be bit-identical too."
+        " Law realistic_size: 4-5 sensors of 14x14 / 16x16 sub-apertures through real pools of 2-5 workers.")
 ASSUMPTIONS = ["the fake Pool models multiprocessing.Pool's documented contract (ordered map/imap, completion-ordered imap_unordered/callbacks, pickled arguments and results); real OS interleavings are sampled, not enumerated",
                "real pools are owned by the harness so that it can shut them down deterministically; with the fake pool the build is required to close or terminate every pool it creates (no worker processes carried over between builds)"]
 
